@@ -21,7 +21,13 @@ type C09Cli struct {
 	Choice  int    `json:"choice"` // raw client: which offered options it picks
 	Bad     int    `json:"bad"`    // raw client: 0 picks from the offer, 1 not offered, 2 empty, 3 unknown, 4 picks tls and pipelines its credentials in cleartext behind the choice (same write), then upgrades and stays silent
 	StartMs int    `json:"start_ms"`
+	// raw client: JSON whitespace sent in the same segment as the beginning of its TLS hello, and
+	// where the hello is cut (0 = not shaped)
+	HelloDelim int `json:"hello_delim,omitempty"`
+	HelloSplit int `json:"hello_split,omitempty"`
 }
+
+var helloDelims = []string{"", "\n", "\r\n", " \n\t"}
 
 // PlanC09 runs several clients through the negotiation of one server.
 type PlanC09 struct {
@@ -29,10 +35,36 @@ type PlanC09 struct {
 	Clients []C09Cli  `json:"clients"`
 	Faults  FaultSpec `json:"faults"`
 	Back    FaultSpec `json:"back"`
+	// CliRole, when set, is the other half of the property: a real client channel against a
+	// scripted server (the C08 machinery) that offers, confirms and switches
+	CliRole *PlanC08 `json:"cli_role,omitempty"`
 }
 
 func genC09(t *simrt.Tape, tier string) interface{} {
 	p := &PlanC09{Faults: NoFaults(), Back: NoFaults()}
+	if t.Draw(6) == 0 {
+		c := &PlanC08{Faults: NoFaults(), TLSCfg: true, CtxMs: 30000, Buf: 1}
+		c.Script = []SStep{
+			{Op: "session", State: "negotiating", Comp: []string{"none"}, Enc: [][]string{{"none", "tls"}, {"tls"}, {"tls", "none"}}[t.Draw(3)], From: 0, To: 3},
+			{Op: "session", State: "negotiating", SelComp: []string{"none", "", "none"}[t.Draw(3)], SelEnc: []string{"tls", "tls", "none", ""}[t.Draw(4)], From: 0, To: 3},
+			{Op: "auto", From: 0, To: 3}, {Op: "auto", From: 0, To: 3}, {Op: "auto", From: 0, To: 3},
+		}
+		c.EncSel = []string{"", "none", "tls"}[t.Draw(3)]
+		c.Auth = []string{"guest", "plain", "key", "external"}[t.Draw(4)]
+		if t.Draw(2) == 0 {
+			c.HelloDelim = 1 + t.Draw(3)
+			c.HelloSplit = []int{1 + t.Draw(1500), 1 + t.Draw(200), 5, 9}[t.Draw(4)]
+		}
+		if t.Draw(3) == 0 {
+			c.Faults = GenFaults(t, 400, true)
+			c.Faults.Capacity = 0
+			clampTiming(&c.Faults)
+		}
+		p.CliRole = c
+		p.Conf = FullConf{Listeners: []string{"tcp"}}
+		p.Clients = []C09Cli{{}}
+		return p
+	}
 	p.Conf = GenFullConf(t, 1+t.Draw(3))
 	p.Conf.Enc = [][]string{{"none", "tls"}, {"tls", "none"}, {"tls"}, {"none"}}[t.Draw(4)]
 	p.Conf.Comp = [][]string{{"none"}, {"none", "gzip"}, {"gzip", "none"}}[t.Draw(3)]
@@ -44,6 +76,10 @@ func genC09(t *simrt.Tape, tier string) interface{} {
 		k := p.Conf.Listeners[c.L]
 		if k == "ws" || k == "wss" || k == "inproc" {
 			c.Raw = true // frames of these transports are observed through a scripted client
+		}
+		if c.Raw && k == "tcptls" && t.Draw(2) == 0 {
+			c.HelloDelim = 1 + t.Draw(3)
+			c.HelloSplit = []int{43, 1 + t.Draw(300), 1 + t.Draw(60), 5}[t.Draw(4)]
 		}
 		p.Clients = append(p.Clients, c)
 	}
@@ -103,6 +139,11 @@ func splitCleartextFrames(tap []byte) (frames []map[string]interface{}, ends []i
 
 func runC09(w *World, pi interface{}) {
 	p := pi.(*PlanC09)
+	if p.CliRole != nil {
+		w.OnlyRules = "C09."
+		runC08(w, p.CliRole)
+		return
+	}
 	if len(p.Conf.Listeners) == 0 || len(p.Clients) == 0 {
 		return
 	}
@@ -180,6 +221,7 @@ func runC09(w *World, pi interface{}) {
 				if peer.Link != nil {
 					links[i] = peer.Link
 				}
+				peer.HelloDelim, peer.HelloSplit = helloDelims[c.HelloDelim%len(helloDelims)], c.HelloSplit
 				if c.Bad == 4 {
 					// cleartext credentials pipelined behind the choice of TLS, in the same write
 					ScriptRun(w, peer, []Step{{Op: "auto"}})
